@@ -75,6 +75,7 @@ impl Scenario for C05S {
                 6 => 2 * page - 1,
                 7 => 2 * page + 1,
                 8 => 2 * page,
+                9 if r.chance(1, 3) => *r.pick(&[(2u64 << 20) - 1, 2 << 20, (2 << 20) + 1, (4 << 20) + 4097]),
                 9 => r.range(1, 300),
                 _ => r.range(1, max_rand),
             };
@@ -82,8 +83,18 @@ impl Scenario for C05S {
             spec["clones"] = json!(r.below(4));
             regs.push(spec);
         }
-        json!({"sim": sim, "regs": regs, "pad": if r.chance(1, 5) { r.range(5000, 30000) } else { 0 }, "extra": r.chance(1, 3),
-               "receiver_proc": variant != "inproc" && r.chance(1, 2), "sender_proc_crash": variant != "inproc" && r.chance(1, 6)})
+        let crash = variant != "inproc" && r.chance(1, 6);
+        let noise = variant != "inproc" && !crash && r.chance(1, 3);
+        if noise {
+            // transient refusals while another thread creates and drops regions of its own
+            let mut f = sim["faults"].as_array().cloned().unwrap_or_default();
+            for _ in 0..r.range(1, 2) {
+                f.push(json!({"k": "txerr", "pid": 2, "nth": r.below(4), "errno": libc::ENOBUFS}));
+            }
+            sim["faults"] = json!(f);
+        }
+        json!({"sim": sim, "regs": regs, "noise": noise, "pad": if noise || r.chance(1, 5) { r.range(5000, 30000) } else { 0 }, "extra": r.chance(1, 3),
+               "receiver_proc": variant != "inproc" && r.chance(1, 2), "sender_proc_crash": crash})
     }
     fn run(&self, p: &Value) -> Outcome {
         let mut out = Outcome::default();
@@ -178,7 +189,16 @@ impl Scenario for C05S {
         if crash {
             spawn_process("sender", 3, (tx, rtx), sender_body);
         } else {
-            sim::spawn("sender", None, move || sender_body((tx, rtx)));
+            sim::spawn("sender", Some(2), move || sender_body((tx, rtx)));
+        }
+        if p["noise"].as_bool().unwrap_or(false) {
+            sim::spawn("noise", None, move || {
+                for i in 0..40u32 {
+                    let g = IpcSharedMemory::from_byte(0xEE, 777 + i as usize);
+                    sim::yield_now();
+                    drop(g);
+                }
+            });
         }
         let blocked = sim::settle();
         let evs = hist::events();
@@ -189,11 +209,16 @@ impl Scenario for C05S {
         for e in evs.iter().filter(|e| e.op == "order") {
             out.viol("order:recv", format!("region in position {} of the message is region {}", e.a, e.b));
         }
+        let refused = sim::g().stats.f_enobufs > 0;
         if let Some(e) = evs.iter().find(|e| e.op == "send.err") {
-            out.viol("send-failed:send", e.s.clone());
+            if !refused {
+                out.viol("send-failed:send", e.s.clone());
+            }
         }
         if let Some(e) = evs.iter().find(|e| e.op == "recv.err") {
-            out.viol("recv-failed:recv", e.s.clone());
+            if !(refused && evs.iter().any(|x| x.op == "send.err")) {
+                out.viol("recv-failed:recv", e.s.clone());
+            }
         }
         if let Some(e) = evs.iter().find(|e| e.op == "recv.ok") {
             if e.a as usize != specs.len() {
